@@ -124,8 +124,10 @@ def check_program(res: Res, p: dict) -> None:
     for cls, _ in a["produced"]:
         res.see("node_classes", cls)
     if isinstance(m, Unspec) and "leaves the mapped range" in str(m):
-        # an advance that leaves the mapped ROM range has no address the property defines: sizes are not judged there
-        a["deviations"] = [d for d in a["deviations"] if d[0] != "R2"]
+        # an advance that leaves the mapped range (ROM, or work RAM left through its last byte by a large .incbin) has no address the
+        # property defines, and neither has anything after it: the passes are not compared for such a program
+        res.count("leaves_mapped_range_unjudged")
+        a["deviations"] = []
     if a["deviations"]:
         rule, text = a["deviations"][0]
         mech = {"R1": "address-differs-between-passes", "R2": "size-differs-from-emitted", "R3": "label-not-at-next-byte"}[rule]
